@@ -10,6 +10,7 @@ pub mod c08;
 pub mod c09;
 pub mod c10;
 pub mod c11;
+pub mod c12;
 pub mod c13;
 pub mod c14;
 pub mod c15;
@@ -29,6 +30,7 @@ pub fn run(prop: &str, ctx: &Ctx, r: &mut Report) -> bool {
 		"C09" => c09::run(ctx, r),
 		"C10" => c10::run(ctx, r),
 		"C11" => c11::run(ctx, r),
+		"C12" => c12::run(ctx, r),
 		"C13" => c13::run(ctx, r),
 		"C14" => c14::run(ctx, r),
 		"C15" => c15::run(ctx, r),
